@@ -5,7 +5,8 @@ LEVEL = 'exploration'
 SHARDS = {'quick': 2, 'thorough': 16}
 BUDGET = {'quick': 70, 'thorough': 600}
 TECHNIQUE = 'runtime monitoring at the client boundary: signature discovered from source vs. the same forwarding declared through the public algebra (forwards per written call, merged), plus metamorphic re-emission of each program'
-RULE = ('the same program space as C05 plus wrappers that are callable instances (the forwarding body is __call__; the class of such an instance must be reported with its plain signature: constructing it forwards nothing); for each program the expected value is computed from the generator ground truth with '
+RULE = ('(also: forwarding functions with up to three named parameters of their own, drawn by kind profile; an earlier same-named definition in the same file that was already inspected) '
+        'the same program space as C05 plus wrappers that are callable instances (the forwarding body is __call__; the class of such an instance must be reported with its plain signature: constructing it forwards nothing); for each program the expected value is computed from the generator ground truth with '
         'signatures.forwards / merge / mask only (parameters, defaults and provenance compared; several values are admitted where the '
         'statement does not classify a construct or fixes no merge order), and two semantically irrelevant variants (other statement '
         'contexts of the same deferral-depth class, decoys, unrelated statements, a wrapping-only decorator) must give the same signature and '
